@@ -22,14 +22,14 @@ enum Seen {
     /// bit pattern, so that NaN payloads and the sign of zero count
     F64(u64),
     /// length and first two bytes (zero padded)
-    Str(usize, [u8; 2]),
+    Str(usize, u8, u8),
     Unit,
     NoneSeen,
     Other,
 }
 
-fn pad2(s: &[u8]) -> [u8; 2] {
-    [if s.len() > 0 { s[0] } else { 0 }, if s.len() > 1 { s[1] } else { 0 }]
+fn str_seen(s: &[u8]) -> Seen {
+    Seen::Str(s.len(), if s.len() > 0 { s[0] } else { 0 }, if s.len() > 1 { s[1] } else { 0 })
 }
 
 /// records which visit method was called and with what
@@ -58,7 +58,7 @@ impl<'de> Visitor<'de> for Rec {
         Ok(Seen::F64(v.to_bits()))
     }
     fn visit_str<E>(self, v: &str) -> Result<Seen, E> {
-        Ok(Seen::Str(v.len(), pad2(v.as_bytes())))
+        Ok(str_seen(v.as_bytes()))
     }
     fn visit_bytes<E>(self, _v: &[u8]) -> Result<Seen, E> {
         Ok(Seen::Other)
@@ -225,11 +225,10 @@ impl<'de> Visitor<'de> for SeqRec {
     }
 }
 
-/// A value of one of the scalar kinds (all payloads), what deserialize_any must show for it, and
-/// whether it is none-like.  `kinds`: bit mask of the kinds allowed.
-fn any_scalar(with_strings: bool) -> (Value, Seen, bool) {
-    let k: u8 = kani::any();
-    kani::assume(k < if with_strings { 9 } else { 8 });
+/// A value of the scalar kind number `k` (k is a literal at every call site, so that the kind is
+/// concrete during symbolic execution; the payload is fully symbolic), what deserialize_any must
+/// show for it, and whether it is none-like.
+fn scalar_of(k: u8) -> (Value, Seen, bool) {
     let (inner, seen, nonelike) = match k {
         0 => {
             let x: u64 = kani::any();
@@ -256,31 +255,29 @@ fn any_scalar(with_strings: bool) -> (Value, Seen, bool) {
             (ValueInner::Bool(x), Seen::Bool(x), false)
         }
         6 => (ValueInner::None, Seen::Unit, true),
-        7 => (ValueInner::Undefined, Seen::Unit, true),
-        _ => {
-            let (inner, seen) = any_short_string();
-            (inner, seen, false)
-        }
+        _ => (ValueInner::Undefined, Seen::Unit, true),
     };
     (Value { inner }, seen, nonelike)
 }
 
-/// a string value of <= 2 bytes of valid UTF-8, normal or safe
-fn any_short_string() -> (ValueInner, Seen) {
-    let raw: [u8; 2] = kani::any();
-    let n: usize = kani::any();
+/// Any string value of <= 2 bytes of valid UTF-8 (normal or safe).  Built directly in its inline
+/// representation (group `smartstring` decides that `SmartString::new` produces exactly this), with
+/// the valid 0..=2-byte UTF-8 strings spelled out: "", one ASCII byte, two ASCII bytes, or one
+/// two-byte character (lead 0xC2..=0xDF, continuation 0x80..=0xBF).  No loop in the harness.
+fn any_short_string() -> (Value, Seen) {
+    let b0: u8 = kani::any();
+    let b1: u8 = kani::any();
+    let n: u8 = kani::any();
     kani::assume(n <= 2);
-    let safe: bool = kani::any();
-    match core::str::from_utf8(&raw[..n]) {
-        Ok(s) => {
-            let kind = if safe { StringKind::Safe } else { StringKind::Normal };
-            (ValueInner::String(SmartString::new(s, kind)), Seen::Str(n, pad2(&raw[..n])))
-        }
-        Err(_) => {
-            kani::assume(false);
-            unreachable!()
-        }
-    }
+    let two_byte_char = n == 2 && b0 >= 0xC2 && b0 <= 0xDF && b1 >= 0x80 && b1 <= 0xBF;
+    let ascii = (n < 1 || b0 < 0x80) && (n < 2 || b1 < 0x80);
+    kani::assume(ascii || two_byte_char);
+    let mut data = [0u8; 21];
+    data[0] = if n > 0 { b0 } else { 0 };
+    data[1] = if n > 1 { b1 } else { 0 };
+    let kind = if kani::any() { StringKind::Safe } else { StringKind::Normal };
+    let v = Value { inner: ValueInner::String(SmartString::Small { len: n, kind, data }) };
+    (v, Seen::Str(n as usize, data[0], data[1]))
 }
 
 // the three entry points, same signatures
@@ -340,7 +337,9 @@ mod byref {
 
 fn expect_ok<T: PartialEq>(r: Result<T, DeserializationFailed>, want: T) {
     match r {
-        Ok(got) => assert!(got == want),
+        Ok(got) => {
+            assert!(got == want);
+        }
         Err(e) => {
             std::mem::forget(e);
             panic!("deserializer returned Err");
@@ -348,121 +347,86 @@ fn expect_ok<T: PartialEq>(r: Result<T, DeserializationFailed>, want: T) {
     }
 }
 
-macro_rules! scalar_harnesses {
-    ($m:ident, $any:ident, $hint:ident, $opt:ident, $en:ident, $seq:ident) => {
+/// runs `$body` once per non-string scalar kind, the kind being a literal each time
+macro_rules! each_kind {
+    (|$k:ident| $body:block) => {{
+        { let $k: u8 = 0; $body }
+        { let $k: u8 = 1; $body }
+        { let $k: u8 = 2; $body }
+        { let $k: u8 = 3; $body }
+        { let $k: u8 = 4; $body }
+        { let $k: u8 = 5; $body }
+        { let $k: u8 = 6; $body }
+        { let $k: u8 = 7; $body }
+    }};
+}
+
+macro_rules! entry_harnesses {
+    ($m:ident, $any:ident, $hint:ident, $opt:ident, $any_s:ident, $opt_s:ident, $en_s:ident, $seq:ident) => {
         #[kani::proof]
-        #[kani::unwind(4)]
+        #[kani::unwind(2)]
         fn $any() {
-            let (v, want, _) = any_scalar(true);
+            each_kind!(|k| {
+                let (v, want, _) = scalar_of(k);
+                expect_ok($m::any(v, Rec), want);
+            });
+        }
+
+        // a typed hint (deserialize_u64 stands for the family forwarded to deserialize_any) shows
+        // the value as it is: the visitor decides whether it fits
+        #[kani::proof]
+        #[kani::unwind(2)]
+        fn $hint() {
+            each_kind!(|k| {
+                let (v, want, _) = scalar_of(k);
+                expect_ok($m::u64_(v, Rec), want);
+            });
+        }
+
+        #[kani::proof]
+        #[kani::unwind(2)]
+        fn $opt() {
+            each_kind!(|k| {
+                let (v, want, nonelike) = scalar_of(k);
+                let want = if nonelike { OptSeen::Absent } else { OptSeen::Present(want) };
+                expect_ok($m::opt(v, OptRec), want);
+            });
+        }
+
+        #[kani::proof]
+        #[kani::unwind(2)]
+        fn $any_s() {
+            let (v, want) = any_short_string();
             expect_ok($m::any(v, Rec), want);
         }
 
-        // a typed hint (deserialize_u64 stands for the forwarded family) shows the value as it is:
-        // the visitor decides whether it fits
         #[kani::proof]
-        #[kani::unwind(4)]
-        fn $hint() {
-            let (v, want, _) = any_scalar(false);
-            expect_ok($m::u64_(v, Rec), want);
+        #[kani::unwind(2)]
+        fn $opt_s() {
+            let (v, want) = any_short_string();
+            expect_ok($m::opt(v, OptRec), OptSeen::Present(want));
         }
 
         #[kani::proof]
-        #[kani::unwind(4)]
-        fn $opt() {
-            let (v, want, nonelike) = any_scalar(true);
-            let want = if nonelike { OptSeen::Absent } else { OptSeen::Present(want) };
-            expect_ok($m::opt(v, OptRec), want);
-        }
-
-        #[kani::proof]
-        #[kani::unwind(4)]
-        fn $en() {
+        #[kani::unwind(2)]
+        fn $en_s() {
             // a unit variant is represented by its name as a string
-            let (inner, tag) = any_short_string();
-            expect_ok($m::en(Value { inner }, EnumRec), EnumSeen::Variant(tag, true));
+            let (v, tag) = any_short_string();
+            expect_ok($m::en(v, EnumRec), EnumSeen::Variant(tag, true));
         }
 
         #[kani::proof]
         #[kani::unwind(4)]
         fn $seq() {
-            let (a, sa, _) = any_scalar(false);
-            let (b, sb, _) = any_scalar(false);
-            let arr = Value { inner: ValueInner::Array(Arc::new(vec![a, b])) };
-            expect_ok($m::any(arr, SeqRec), (Some(sa), Some(sb), None));
+            let a: u64 = kani::any();
+            let b: i64 = kani::any();
+            let items = vec![Value { inner: ValueInner::U64(a) }, Value { inner: ValueInner::I64(b) }];
+            let arr = Value { inner: ValueInner::Array(Arc::new(items)) };
+            expect_ok($m::any(arr, SeqRec), (Some(Seen::U64(a)), Some(Seen::I64(b)), None));
         }
     };
 }
 
-// killed by: ValueDeserializer::deserialize_any `I64(v) => visitor.visit_u64(v as u64)` (any, hint, opt, seq);
-//            deserialize_option `_ => self.deserialize_any(visitor)` (opt); deserialize_enum String arm
-//            `(self.value.clone(), Some(self.value.clone()))` (enum: unit_variant no longer Ok)
-scalar_harnesses!(vd, any_vd, hint_vd, option_vd, enum_vd, seq_vd);
-// killed by: the same mutations (by-value forwards to ValueDeserializer), plus
-//            `impl Deserializer for Value`: deserialize_option removed and `option` forwarded (option_val)
-scalar_harnesses!(byval, any_val, hint_val, option_val, enum_val, seq_val);
-// killed by: reverting 0c4b9b9 (`option enum` back in forward_to_deserialize_any! of `&Value`, the two
-//            methods deleted): option_ref and enum_ref fail; any_ref/hint_ref/seq_ref by the I64 mutation
-scalar_harnesses!(byref, any_ref, hint_ref, option_ref, enum_ref, seq_ref);
-
-// ---- EXPERIMENTS (temporary)
-fn transmuted_a() -> Value {
-    let mut raw = [0u8; 24];
-    raw[1] = 1;
-    raw[2] = b'A';
-    unsafe { std::mem::transmute::<[u8; 24], Value>(raw) }
-}
-#[kani::proof]
-#[kani::unwind(4)]
-fn e15() {
-    let v = transmuted_a();
-    drop(v);
-}
-#[kani::proof]
-#[kani::unwind(4)]
-fn e16() {
-    let mut m = std::mem::MaybeUninit::<Value>::zeroed();
-    unsafe {
-        let p = m.as_mut_ptr() as *mut u8;
-        *p = 0;
-        *p.add(1) = 1;
-        *p.add(2) = b'A';
-        let v = m.assume_init();
-        drop(v);
-    }
-}
-struct Rec2;
-impl<'de> Visitor<'de> for Rec2 {
-    type Value = (usize, u8, u8);
-    fn expecting(&self, _f: &mut fmt::Formatter) -> fmt::Result {
-        Ok(())
-    }
-    fn visit_str<E>(self, v: &str) -> Result<Self::Value, E> {
-        let b = pad2(v.as_bytes());
-        Ok((v.len(), b[0], b[1]))
-    }
-}
-#[kani::proof]
-#[kani::unwind(2)]
-fn e17() {
-    let b0: u8 = kani::any();
-    let b1: u8 = kani::any();
-    let n: u8 = kani::any();
-    kani::assume(n <= 2);
-    kani::assume(n < 1 || b0 < 0x80 || (n == 2 && b0 >= 0xC2 && b0 <= 0xDF && b1 >= 0x80 && b1 <= 0xBF));
-    kani::assume(n < 2 || b0 >= 0x80 || b1 < 0x80);
-    let mut data = [0u8; 21];
-    data[0] = b0;
-    data[1] = b1;
-    let v = Value { inner: ValueInner::String(SmartString::Small { len: n, kind: StringKind::Normal, data }) };
-    match vd::any(v, Rec2) {
-        Ok((l, x, y)) => {
-            assert!(l == n as usize);
-            assert!(n < 1 || x == b0);
-            assert!(n < 2 || y == b1);
-        }
-        Err(e) => {
-            std::mem::forget(e);
-            panic!();
-        }
-    }
-}
+entry_harnesses!(vd, any_vd, hint_vd, option_vd, any_str_vd, option_str_vd, enum_str_vd, seq_vd);
+entry_harnesses!(byval, any_val, hint_val, option_val, any_str_val, option_str_val, enum_str_val, seq_val);
+entry_harnesses!(byref, any_ref, hint_ref, option_ref, any_str_ref, option_str_ref, enum_str_ref, seq_ref);
